@@ -67,6 +67,8 @@ def eval_case(case) -> Outcome:
         out.labels.add("coincident-breakpoints")
     if len({s["zone"] for s in case["streams"]}) > 1:
         out.labels.add("multi-zone")
+    if case.get("shifted_up"):
+        out.labels.add("temperatures>=1000")
     if case.get("utilities"):
         out.labels.add("utilities-given")
     if case.get("zone_tree"):
@@ -168,7 +170,25 @@ def strategy(tier):
         G.problem(min_streams=2, max_streams=mx, multi_zone=True, options=opts),
         G.problem(min_streams=2, max_streams=5, iso_share=0.5, with_utilities=False),
         with_explicit_tree(G.problem(min_streams=2, max_streams=mx, multi_zone=True)),
+        hot_end(G.problem(min_streams=2, max_streams=mx, shape="mixed", iso_share=0.3, options=opts)),
     )
+
+
+def hot_end(base):
+    """The same kind of problem at furnace / reformer level or entered in kelvin: every temperature moved up by
+    1000 (or 273.15), so that tolerances written for 'ordinary' magnitudes meet shifted temperatures >= 1000."""
+
+    @st.composite
+    def build(draw):
+        case = draw(base)
+        d = draw(st.sampled_from([1000.0, 1000.0, 900.0, 273.15]))
+        for x in case["streams"] + (case.get("utilities") or []):
+            x["t_supply"] = round(x["t_supply"] + d, 6)
+            x["t_target"] = round(x["t_target"] + d, 6)
+        case["shifted_up"] = d
+        return case
+
+    return build()
 
 
 PARTS = [Part("service", eval_case, {"quick": 2000, "thorough": 60000}, strategy=strategy, min_nontrivial={"quick": 600, "thorough": 15000})]
